@@ -747,6 +747,10 @@ def literal_probes():
                  ('uint64', '18446744073709551615'), ('char', '-128'), ('uint8', '0255'), ('int8', '-0128')):
         out.append(mini(extra_types=[ty(prim=p, min=v)]))
         out.append(mini(**kfield(ty(prim=p, presence='constant', const=v))))
+    # a float constant whose value is an enumerator that does not convert exactly (`float{to_underlying(E::X)}`)
+    big = {'k': 'enum', 'name': 'E', 'enc': 'int32', 'values': [{'name': 'A', 'value': '16777217'}, {'name': 'B', 'value': '16777216'}]}
+    out.append(mini(extra_types=[big], fields=[{'name': 'k', 'id': 1, 'type': 'float', 'presence': 'constant', 'valueRef': 'E.A'}]))
+    out.append(mini(extra_types=[big], fields=[{'name': 'k', 'id': 1, 'type': 'float', 'presence': 'constant', 'valueRef': 'E.B'}]))
     out.append(mini(extra_types=[ty(prim='float', presence='optional', min='-INF', max='INF', null='NaN')]))
     out.append(mini(extra_types=[{'k': 'composite', 'name': 'C', 'elems': [ty(name='z', prim='uint8', offset=2 ** 63)]}],
                     fields=[{'name': 'c', 'id': 1, 'type': 'C'}]))
